@@ -609,7 +609,56 @@ def family_T(tier):
                                  ('for', 'p', var('ps'), [('deftup', ['n', 's'], var('p')), ('print', ('bin', '+', var('n'), I(1))), ('print', ('bin', '+', var('s'), lit_str("!")))])], ['coll:List', 'tuple'])
 
 
-FAMILIES = {'T': family_T, 'E': family_E, 'R': family_R, 'K': family_K, 'F': family_F, 'A': family_A, 'O': family_O, 'H': family_H}
+# ------------------------------------------------ nullable default, isa, in, is (Q)
+
+def family_Q(tier):
+    n = 0
+    I = lit_int
+
+    def emit(name, prog, tags):
+        nonlocal n
+        n += 1
+        return {"id": "Q%d" % n, "family": "Q." + name, "prog": prog, "tags": ['misc-op'] + tags}
+
+    # `x ? d`: the value of x unless it is None - also for values Python treats as false
+    holders = [("Int", I(0), I(5)), ("Int", I(3), I(5)), ("Int", ('none',), I(5)), ("Str", lit_str(""), lit_str("d")), ("Str", lit_str("v"), lit_str("d")), ("Str", ('none',), lit_str("d")),
+               ("Bool", lit_bool(False), lit_bool(True)), ("Bool", ('none',), lit_bool(True)), ("Float", lit_float("0.0"), lit_float("1.5"))]
+    for ty, held, dflt in holders:
+        tag = ['holds:' + ("none" if held[0] == 'none' else held[2]), 'ty:' + ty]
+        yield emit('default-init', [('def', 'nv', ty + '?', held, False), ('def', 'r', ty, ('qd', var('nv'), dflt), False), ('print', var('r'))], tag)
+        yield emit('default-in-function', [('fun', 'orelse', [('nv', ty + '?', None)], ty, [], [('expr', ('qd', var('nv'), dflt))]), ('print', ('call', 'orelse', [held]))], tag)
+        yield emit('default-of-call', [('fun', 'give', [], ty + '?', [], [('expr', held)]), ('def', 'r', ty, ('qd', ('call', 'give', []), dflt), False), ('print', var('r'))], tag)
+    # isa / isna on a class hierarchy and primitives
+    cls = [('class', 'An', [], [], []), ('class', 'Dg', [], [('An', None)], []), ('class', 'Ct', [], [], [])]
+    for obj, cn in itertools.product(["An", "Dg", "Ct"], ["An", "Dg", "Ct"]):
+        yield emit('isa', cls + [('def', 'o', None, ('new', obj, []), False), ('def', 'r', 'Bool', ('isa', var('o'), cn), False), ('print', var('r')),
+                                 ('if', ('isa', var('o'), cn), [('print', lit_str("yes"))], [('print', lit_str("no"))])], ['isa:%s/%s' % (obj, cn)])
+        yield emit('isna', cls + [('def', 'o', None, ('new', obj, []), False), ('def', 'r', 'Bool', ('isna', var('o'), cn), False), ('print', var('r'))], ['isna:%s/%s' % (obj, cn)])
+    # in / is / isnt
+    for v in (1, 4):
+        yield emit('in-list', [('def', 'l', None, ('list', [I(1), I(2), I(3)]), False), ('def', 'r', 'Bool', ('in', I(v), var('l')), False), ('print', var('r')),
+                               ('if', ('in', I(v), var('l')), [('print', lit_str("in"))], [('print', lit_str("out"))])], ['in'])
+        yield emit('in-range', [('def', 'r', 'Bool', ('in', I(v), ('paren', ('range', I(0), I(3), True, None))), False), ('print', var('r'))], ['in', 'range'])
+    yield emit('is-none', [('def', 'nv', 'Int?', ('none',), False), ('def', 'a', 'Bool', ('is', var('nv'), ('none',)), False), ('print', var('a')),
+                           ('def', 'mv', 'Int?', I(1), False), ('def', 'b', 'Bool', ('isnt', var('mv'), ('none',)), False), ('print', var('b'))], ['is'])
+    # string building, nested calls, while with compound condition, accumulators
+    yield emit('accumulate', [('def', 's', 'Str', lit_str(""), False), ('def', 'k', 'Int', I(0), False),
+                              ('while', ('bin', 'and', ('bin', '<', var('k'), I(3)), ('bin', '!=', var('s'), lit_str("aaa"))), [('assign', var('s'), ('bin', '+', var('s'), lit_str("a"))), ('aug', '+', var('k'), I(1)), ('print', var('s'))]),
+                              ('print', var('k'))], ['while-compound'])
+    yield emit('nested-calls', [('fun', 'inc', [('x', 'Int', None)], 'Int', [], [('expr', ('bin', '+', var('x'), I(1)))]), ('fun', 'dbl', [('x', 'Int', None)], 'Int', [], [('expr', ('bin', '*', var('x'), I(2)))]),
+                                ('print', ('call', 'inc', [('call', 'dbl', [('call', 'inc', [I(1)])])])), ('print', ('call', 'dbl', [('bin', '+', ('call', 'inc', [I(1)]), ('call', 'dbl', [I(2)]))]))], ['nested-calls'])
+    yield emit('aug-ops', [('def', 'x', 'Int', I(7), False), ('aug', '+', var('x'), I(2)), ('print', var('x')), ('aug', '-', var('x'), I(3)), ('print', var('x')), ('aug', '*', var('x'), I(2)), ('print', var('x')),
+                           ('aug', '^', var('x'), I(2)), ('print', var('x')), ('aug', '<<', var('x'), I(1)), ('print', var('x')), ('aug', '>>', var('x'), I(2)), ('print', var('x')),
+                           ('def', 'y', 'Float', lit_float("9.0"), False), ('aug', '/', var('y'), lit_float("2.0")), ('print', var('y'))], ['aug'])
+    yield emit('sqrt', [('def', 'r', 'Float', ('sqrt', lit_float("16.0")), False), ('print', var('r')), ('print', ('sqrt', ('bin', '+', lit_float("9.0"), lit_float("16.0"))))], ['sqrt'])
+    yield emit('shadow-in-branch', [('def', 'x', 'Int', I(1), False), ('def', 'c', 'Bool', lit_bool(True), False), ('if', var('c'), [('def', 'x', 'Int', I(2), False), ('print', var('x'))], None), ('print', var('x'))], ['shadowing'])
+    yield emit('shadow-in-loop', [('def', 'x', 'Int', I(1), False), ('for', 'i', ('range', I(0), I(2), False, None), [('def', 'x', 'Int', ('bin', '+', var('i'), I(10)), False), ('print', var('x'))]), ('print', var('x'))], ['shadowing'])
+    yield emit('shadow-in-function', [('def', 'x', 'Int', I(1), False), ('fun', 'g', [], 'Int', [], [('def', 'x', 'Int', I(5), False), ('expr', var('x'))], 'block'), ('print', ('call', 'g', [])), ('print', var('x'))], ['shadowing'])
+    yield emit('shadow-param', [('def', 'x', 'Int', I(1), False), ('fun', 'g', [('x', 'Int', None)], 'Int', [], [('expr', ('bin', '+', var('x'), I(1)))]), ('print', ('call', 'g', [I(7)])), ('print', var('x'))], ['shadowing'])
+    yield emit('shadow-same-block', [('def', 'x', 'Int', I(1), False), ('print', var('x')), ('def', 'x', 'Str', lit_str("s"), False), ('print', var('x'))], ['shadowing'])
+
+
+FAMILIES = {'Q': family_Q, 'T': family_T, 'E': family_E, 'R': family_R, 'K': family_K, 'F': family_F, 'A': family_A, 'O': family_O, 'H': family_H}
 
 
 def materialise(case):
@@ -619,7 +668,7 @@ def materialise(case):
     return case
 
 
-def pool(tier, families="ERKFAOHT"):
+def pool(tier, families="ERKFAOHTQ"):
     for f in families:
         for case in FAMILIES[f](tier):
             yield materialise(case)
